@@ -3,6 +3,7 @@ CONSTANTS
   NSample = 12
   Seed = 1
   CoverStride = 2
+  FullDepth3 = FALSE
 INVARIANTS Evaluable OuterLaw LatticeLaw
 POSTCONDITION EmitCases
 CHECK_DEADLOCK FALSE
